@@ -171,3 +171,14 @@ prop("C19",
      level_text="Theorems over all histories and buffer sizes on the socket model: a receive hands over exactly one sent message (bytes, files in order, credentials) or rejects it without delivering data; with large enough buffers receives are the sends in FIFO order; more than SCM_MAX_FD descriptors are refused by the sender; no descriptor installed by the kernel stays open unaccounted (witness for the pinned tree's leak); differential on real socketpairs incl. 252/253/254 descriptors and buffer±1 payloads; gob layer around the 32 KiB cap",
      level_note="Trusted: Lean kernel; hand model tied by differential; kernel socket semantics assumed. Two open known findings (zero-length payload, gob unsent-oversize first use)",
      technique="Lean 4 proofs by induction over operation histories + differential correspondence on real socketpairs")
+
+prop("C13",
+     trusted_base=["Go-lite runs of the regenerated handleReset and DupToMemfd (Gen.C13) against small worlds; hand model `reset` of the mount-table walk; memfd seal semantics table Model/Reset.denied",
+                   "flag constants (roSeal, createFlag, F_SEAL_*) from the compiled packages"],
+     assumptions=["os.RemoveAll run by the namespace root removes any tree (CAP_DAC_OVERRIDE in the container's user namespace) — validated by hostile trees incl. 000-mode directories",
+                  "'every writable mount' = the tmpfs mounts (default table); a caller-supplied read-write bind mount is host data and is not cleaned by Reset (documented reading)",
+                  "kernel seal semantics as tabulated"],
+     not_covered="kernel unlink/seal implementation",
+     level_text="Theorem for every mount table on the reset model (exactly the tmpfs targets are cleaned, in order, success only without failure) tied to the regenerated handleReset by kernel evaluation (filter, path join, order, error reply at first failure); DupToMemfd's create-copy-seal-rewind order with close on every failing path on regenerated code; every modifying operation denied under the compiled seal set; hostile trees + host-side inspection of the mounts, sealed memfd attacked through the descriptor, /proc/self/fd and from the exec'd program",
+     level_note="PARTIAL: proof about the model/regenerated glue + differential; kernel unlink/seal semantics assumed",
+     technique="Lean 4 proof on the reset model + decide +kernel on regenerated Go-lite code + hostile-tree differential")
